@@ -21,7 +21,7 @@ type c10Case struct {
 	Name  string   `json:"name"`
 	Host  string   `json:"host"`  // task | sub
 	Intr  []bool   `json:"intr"`  // per boundary event: interrupting?
-	Hist  []string `json:"hist"`  // a0 (activate host), e1, e2 (deliver), ah (answer host)
+	Hist  []string `json:"hist"`  // a0 (activate host), e1, e2 (deliver), ah (answer host), ax (answer with an error, no handler), as (error + skip handler), ar (error + retry handler: host is requested again)
 	Race  bool     `json:"race"`  // last two actions issued concurrently
 	Reps  int      `json:"reps"`
 }
@@ -64,13 +64,13 @@ func c10Cases(tier string, seed uint64) []fw.Case {
 	var cs []fw.Case
 	for _, host := range []string{"task", "sub"} {
 		for _, intr := range [][]bool{{true}, {false}, {true, true}, {true, false}, {false, true}, {false, false}} {
-			alpha := []string{"a0", "e1", "ah"}
+			alpha := []string{"a0", "e1", "ah", "ax", "as", "ar"}
 			if len(intr) == 2 {
-				alpha = []string{"a0", "e1", "e2", "ah"}
+				alpha = []string{"a0", "e1", "e2", "ah", "ax", "ar"}
 			}
 			var hs [][]string
-			var rec func(p []string, activated, answered bool)
-			rec = func(p []string, activated, answered bool) {
+			var rec func(p []string, activated, answered, interrupted bool)
+			rec = func(p []string, activated, answered, interrupted bool) {
 				if len(p) > 0 {
 					hs = append(hs, append([]string(nil), p...))
 				}
@@ -81,13 +81,21 @@ func c10Cases(tier string, seed uint64) []fw.Case {
 					if a == "a0" && activated {
 						continue
 					}
-					if a == "ah" && (!activated || answered) {
+					isAns := a == "ah" || a == "ax" || a == "as"
+					if (isAns || a == "ar") && (!activated || answered) {
 						continue
 					}
-					rec(append(p, a), activated || a == "a0", answered || a == "ah")
+					if a == "ar" && interrupted {
+						continue // retrying an interrupted activity has no defined meaning
+					}
+					intrNow := interrupted
+					if a[0] == 'e' && activated && !answered && intr[int(a[1]-'1')] {
+						intrNow = true
+					}
+					rec(append(p, a), activated || a == "a0", answered || isAns, intrNow)
 				}
 			}
-			rec(nil, false, false)
+			rec(nil, false, false, false)
 			for _, h := range hs {
 				c := c10Case{Host: host, Intr: intr, Hist: h, Reps: 1}
 				c.Name = fmt.Sprintf("%s/%v/%s", host, intr, strings.Join(h, ","))
@@ -166,11 +174,13 @@ func c10Run(c *c10Case, env *fw.Env, v *fw.V) {
 		switch a {
 		case "a0":
 			m.activated = true
-		case "ah":
+		case "ah", "ax", "as":
 			if !m.interrupted {
 				m.tn++
 			}
 			m.answered = true
+		case "ar":
+			// retried: the activity stays open, nothing continues
 		default:
 			i := int(a[1] - '1')
 			if m.activated && !m.answered && !m.interrupted {
@@ -193,6 +203,20 @@ func c10Run(c *c10Case, env *fw.Env, v *fw.V) {
 			if hostReq != nil {
 				in.Answer(hostReq, bpmn.DoWithResults(nil))
 			}
+		case "ax":
+			if hostReq != nil {
+				in.Answer(hostReq, bpmn.DoWithErr(fmt.Errorf("boom")))
+			}
+		case "as", "ar":
+			if hostReq != nil {
+				ch := make(chan bpmn.ErrHandler, 1)
+				if a == "as" {
+					ch <- bpmn.ErrHandler{Mode: bpmn.SkipMode}
+				} else {
+					ch <- bpmn.ErrHandler{Mode: bpmn.RetryMode, Retries: 3}
+				}
+				in.Answer(hostReq, bpmn.DoWithErrHandle(fmt.Errorf("boom"), ch))
+			}
 		default:
 			deliver(int(a[1] - '1'))
 		}
@@ -202,11 +226,16 @@ func c10Run(c *c10Case, env *fw.Env, v *fw.V) {
 		switch a {
 		case "a0":
 			return "activate"
-		case "ah":
+		case "ah", "ax", "as":
 			if prev.interrupted {
 				return "answer-after-interrupt"
 			}
 			return "answer"
+		case "ar":
+			if prev.interrupted {
+				return "retry-after-interrupt"
+			}
+			return "retry"
 		}
 		i := int(a[1] - '1')
 		switch {
@@ -321,14 +350,15 @@ func c10Run(c *c10Case, env *fw.Env, v *fw.V) {
 		if !quiet(fmt.Sprintf("after step %d (%s)", i, a)) {
 			return
 		}
-		if a == "a0" {
+		if a == "a0" || (a == "ar" && !prev.interrupted) {
+			hostReq = nil
 			for _, r := range in.Pending() {
 				if r.Act == "th" {
 					hostReq = r
 				}
 			}
 			if hostReq == nil {
-				v.Violate("host-not-requested", hostCls, "host activity not requested after activation")
+				v.Violate("host-not-requested", hostCls+"/"+tag, "host activity not requested after %s", tag)
 				fail()
 				return
 			}
@@ -417,7 +447,7 @@ func init() {
 			v.Nontrivial = true
 			return v
 		},
-		Rule:        "host activity = task or sub-process x 1..2 boundary events x each interrupting or not x all histories of length <= 4 over {activate host, deliver event 1/2, answer host} (incl. events before activation and repeated events); after every step exception-path and normal-path request counts are compared with the boundary-event reference; racing variants issue the event and the answer concurrently and accept exactly the outcomes of either order; finally every path is ended, late events delivered and completion demanded; all cases non-trivial; distinct = descriptor hash",
+		Rule:        "host activity = task or sub-process x 1..2 boundary events x each interrupting or not x all histories of length <= 4 over {activate host, deliver event 1/2, answer host normally / with an error and no handler / with an error and a skip handler / with an error and a retry handler (host requested again, boundary events stay armed)} (incl. events before activation and repeated events); after every step exception-path and normal-path request counts are compared with the boundary-event reference; racing variants issue the event and the answer concurrently and accept exactly the outcomes of either order; finally every path is ended, late events delivered and completion demanded; all cases non-trivial; distinct = descriptor hash",
 		Exhaustive:  func(string) bool { return true },
 		Assumptions: []string{"events delivered through Process.ConsumeEvent", "one token at the host activity"},
 	})
